@@ -7,6 +7,7 @@ import (
 	"go/types"
 	"math/big"
 	"os"
+	"sort"
 	"strings"
 	"time"
 
@@ -37,6 +38,7 @@ func (e *Engine) RunRoot(fn *ssa.Function) (err error) {
 	e.resetSymbolic()
 	e.rootKey = shortKey(funcKey(fn))
 	e.rootContract = e.contractFor(fn)
+	e.noteRootBudget()
 	e.rootInputs = nil
 	e.registerReplayTarget(fn, e.modDir)
 	e.funcsTouched[funcKey(fn)] = true
@@ -106,6 +108,11 @@ func (e *Engine) RunRoot(fn *ssa.Function) (err error) {
 		e.checkDirectCallsOnly(s, fn, fr.contract)
 		e.checkNeverCalls(s, fn, fr.contract)
 		e.checkSpawnNeverWrites(s, fr, fn, fr.contract)
+		e.checkGuarded(s, fn, fr.contract)
+		e.checkOnlyCallers(s, fn, fr.contract)
+		if e.staticOnly(fr.contract) {
+			return nil
+		}
 		if fr.contract.Flags["frame_only"] != "" && fr.contract.Flags["never_writes"] == "" {
 			return nil
 		}
@@ -131,6 +138,13 @@ func (e *Engine) RunRoot(fn *ssa.Function) (err error) {
 		why := ""
 		if ws.All {
 			why = "write set is unbounded: " + ws.Why
+			// unbounded except for keys preserved by trusted frame clauses: fine when every forbidden key is preserved
+			ok = len(forbidden.Heap) > 0
+			for k := range forbidden.Heap {
+				if !ws.preserved(k) {
+					ok = false
+				}
+			}
 		}
 		for k := range forbidden.Heap {
 			if ws.Heap[k] {
@@ -451,6 +465,12 @@ func (e *Engine) step(s *State, fr *Frame, in ssa.Instruction) ([]*State, bool) 
 	case *ssa.RunDefers:
 		return e.execRunDefers(s, fr, x)
 	case *ssa.Go:
+		if fr.contract != nil && fr.contract.Flags["go_inline"] != "" {
+			// opt-in fork/join model (bmain.go): the spawned closure runs to completion at the spawn point
+			if succ, done, ok := e.goInline(s, fr, x); ok {
+				return succ, done
+			}
+		}
 		e.abstract(fmt.Sprintf("goroutine spawned at %s: body not part of the spawning function's contract", posString(e.fset, x.Pos())))
 		{
 			// "at callee#n before ..." clauses also apply to go statements (arguments are evaluated by the spawner)
@@ -725,7 +745,23 @@ func (e *Engine) havocWrites(s *State, fr *Frame, w *WriteSet, hint string) {
 			}
 		}
 	}
+	// deterministic order (map iteration order would change the numbering of fresh symbols from run to run,
+	// and with it the solvers' behaviour on quantified queries)
+	cellList := make([]*ssa.Alloc, 0, len(w.Cells))
 	for al := range w.Cells {
+		cellList = append(cellList, al)
+	}
+	sort.Slice(cellList, func(i, j int) bool {
+		a, b := cellList[i], cellList[j]
+		if a.Pos() != b.Pos() {
+			return a.Pos() < b.Pos()
+		}
+		if a.Comment != b.Comment {
+			return a.Comment < b.Comment
+		}
+		return a.Name() < b.Name()
+	})
+	for _, al := range cellList {
 		pv, ok := fr.regs[al]
 		if !ok {
 			continue // not yet allocated on this path
@@ -740,10 +776,13 @@ func (e *Engine) havocWrites(s *State, fr *Frame, w *WriteSet, hint string) {
 	if w.All {
 		e.abstract("havoc of the whole heap at " + hint + " in " + shortKey(funcKey(fr.fn)) + " (cause: " + w.Why + ")")
 		for _, k := range sortedKeys(e.heapSorts) {
+			if w.preserved(k) {
+				continue
+			}
 			s.havocHeapKey(k, hint)
 		}
 		for k := range s.heap {
-			if _, ok := e.heapSorts[k]; !ok {
+			if _, ok := e.heapSorts[k]; !ok && !w.preserved(k) {
 				s.havocHeapKey(k, hint)
 			}
 		}
